@@ -94,9 +94,11 @@ def main():
                 want = float(mv[0])
             else:
                 want = float(mv[0]) / (e["atol"] + e["rtol"] * math.sqrt(float(mv[1]))) ** 2
-            if want == 0.0:
-                ok = math.isinf(power) or power > 1e150
-                got = 0.0 if ok else float("nan")
+            if want < 1e-24:
+                # exactly (or essentially) zero estimate, e.g. the standard deviation of a coordinate that is observed
+                # noise-free: the implementation returns rounding noise (a huge or infinite error_power)
+                got = 0.0 if math.isinf(power) else (power ** (-2 * rate) if power > 0 else float("nan"))
+                ok = got <= 1e-18
             else:
                 got = power ** (-2 * rate) if power > 0 else float("nan")
                 ok = abs(got - want) <= RTOL * rate * abs(want)
